@@ -563,6 +563,8 @@ pub struct SinkCore {
     /// here when the writer is let go of is lost (a buffering device, a page cache before
     /// fsync, a pipe whose far end has not read yet).
     pub pending: Vec<u8>,
+    /// The wrapper went around the File seam and wrote a real file instead.
+    pub bypassed: bool,
     chunks: Vec<u16>,
     chunk_i: usize,
     eintr_at: Vec<u32>,
@@ -591,6 +593,7 @@ impl SimSink {
         let core = Rc::new(RefCell::new(SinkCore {
             disk: Vec::new(),
             pending: Vec::new(),
+            bypassed: false,
             chunks: cfg.chunks.clone(),
             chunk_i: 0,
             eintr_at: cfg.eintr_at.clone(),
@@ -825,19 +828,31 @@ pub trait ReadConsumer {
     fn consume_path(self, path: &std::path::Path) -> Self::Out;
 }
 
-/// Path under which the simulated file is offered to the wrappers.
-pub const SIM_PATH: &str = "/simulated/file";
+/// Whether this binary was built with the guarded File seam of /repo.
+pub const FILE_SEAM: bool = cfg!(retrofire_verif);
 
+/// Path under which the simulated file is offered to the wrappers. It is a real path
+/// in the scratch directory: a wrapper that goes around the seam (`std::fs::read`, an
+/// explicit `std::fs::File`) then finds a real file with the same bytes there, fault-free,
+/// instead of nothing.
+#[allow(dead_code)]
+pub fn sim_path() -> std::path::PathBuf {
+    crate::core::scratch_file("simfile").unwrap_or_else(|| std::path::PathBuf::from("/simulated/file"))
+}
+
+#[cfg(retrofire_verif)]
 /// One simulated file behind the `verif_fs` seam: a source for `File::open`, a sink for
 /// `File::create`; any other path is declined (real file system).
 struct OneFile {
+    path: std::path::PathBuf,
     src: RefCell<Option<SimSource>>,
     sink: RefCell<Option<SimSink>>,
 }
 
+#[cfg(retrofire_verif)]
 impl re::util::verif_fs::SimFs for OneFile {
     fn open(&self, path: &std::path::Path) -> Option<io::Result<Box<dyn Read>>> {
-        if path != std::path::Path::new(SIM_PATH) {
+        if path != self.path {
             return None;
         }
         Some(match self.src.borrow_mut().take() {
@@ -846,7 +861,7 @@ impl re::util::verif_fs::SimFs for OneFile {
         })
     }
     fn create(&self, path: &std::path::Path) -> Option<io::Result<Box<dyn Write>>> {
-        if path != std::path::Path::new(SIM_PATH) {
+        if path != self.path {
             return None;
         }
         Some(match self.sink.borrow_mut().take() {
@@ -857,7 +872,9 @@ impl re::util::verif_fs::SimFs for OneFile {
 }
 
 /// Removes the simulated file system again, also when the wrapper panics.
+#[cfg(retrofire_verif)]
 struct Uninstall;
+#[cfg(retrofire_verif)]
 impl Drop for Uninstall {
     fn drop(&mut self) {
         re::util::verif_fs::install(None);
@@ -885,10 +902,21 @@ pub fn drive_reader<C: ReadConsumer>(stack: RStack, src: SimSource, c: C) -> C::
             let mut r = BufReader::with_capacity(cap as usize, a.chain(b));
             c.consume(&mut r)
         }
+        #[cfg(retrofire_verif)]
         RStack::Wrapper => {
-            re::util::verif_fs::install(Some(Box::new(OneFile { src: RefCell::new(Some(src)), sink: RefCell::new(None) })));
+            let path = sim_path();
+            // the same bytes as a real file, for a wrapper that goes around the seam
+            let _ = std::fs::write(&path, &src.core.borrow().data);
+            re::util::verif_fs::install(Some(Box::new(OneFile { path: path.clone(), src: RefCell::new(Some(src)), sink: RefCell::new(None) })));
             let _guard = Uninstall;
-            c.consume_path(std::path::Path::new(SIM_PATH))
+            c.consume_path(&path)
+        }
+        // built without the hook (the tree under test does not compile with it): the
+        // composition the wrapper uses, over the stub
+        #[cfg(not(retrofire_verif))]
+        RStack::Wrapper => {
+            let mut r = BufReader::new(src);
+            c.consume(&mut r)
         }
     }
 }
@@ -939,10 +967,26 @@ pub fn drive_writer<C: WriteConsumer>(stack: WStack, sink: SimSink, c: C) -> (C:
             let fl = flush_retrying(&mut w);
             (out, Some(fl))
         }
+        #[cfg(retrofire_verif)]
         WStack::Wrapper => {
-            re::util::verif_fs::install(Some(Box::new(OneFile { src: RefCell::new(None), sink: RefCell::new(Some(sink)) })));
+            let path = sim_path();
+            let _ = std::fs::remove_file(&path);
+            let core = sink.core.clone();
+            re::util::verif_fs::install(Some(Box::new(OneFile { path: path.clone(), src: RefCell::new(None), sink: RefCell::new(Some(sink)) })));
             let _guard = Uninstall;
-            (c.consume_path(std::path::Path::new(SIM_PATH)), None)
+            let out = c.consume_path(&path);
+            // a wrapper that went around the seam wrote a real file: that is the disk then
+            if let Ok(bytes) = std::fs::read(&path) {
+                let mut c = core.borrow_mut();
+                if c.calls == 0 && c.disk.is_empty() && c.pending.is_empty() {
+                    c.disk = bytes;
+                    c.bypassed = true;
+                }
+                let _ = std::fs::remove_file(&path);
+            }
+            (out, None)
         }
+        #[cfg(not(retrofire_verif))]
+        WStack::Wrapper => (c.consume(BufWriter::new(sink)), None),
     }
 }
